@@ -392,6 +392,16 @@ fn txlen_line(tx: &Transaction) -> (String, String) {
     (format!("txlen {}", crate::statefmt::tx_text(tx)), res)
 }
 
+/// `txenc <tx>`: the bytes of `stdcode::serialize(tx)` (the model writes them with `Stdcode.encodeTx`)
+fn txenc_line(tx: &Transaction) -> (String, String) {
+    let res = match silent(|| stdcode::serialize(tx)) {
+        Ok(Ok(b)) => format!("bytes {}", crate::fmt::hxd(&b)),
+        Ok(Err(_)) => "err".to_string(),
+        Err(_) => "panic".to_string(),
+    };
+    (format!("txenc {}", crate::statefmt::tx_text(tx)), res)
+}
+
 fn some_len(r: &mut Rng, thorough: bool) -> usize {
     match r.below(12) {
         0 => 250,
@@ -499,5 +509,9 @@ pub fn stdcode_stream(r: &mut Rng, n: usize, thorough: bool, out: &mut Out) {
             sigs: (0..r.below(4)).map(|_| { let l = *r.pick(&[0usize, 1, 64, 64, 64, 250, 251]); r.bytes(l).into() }).collect(),
         };
         out.emit2(txlen_line(&tx));
+        // … and the bytes themselves, for transactions of moderate size
+        if tx.inputs.len() + tx.outputs.len() < 40 {
+            out.emit2(txenc_line(&tx));
+        }
     }
 }
